@@ -237,8 +237,13 @@ pub fn remux(rng: &mut Rng, big_gaps: bool, rich: bool) -> Remux {
     // we want data.offset - meta_len == gap  (or a forward displacement when negative is impossible)
     let want_mdat_off = meta_len + gap;
     let cur = lead_len;
-    let mut desc = format!("traks={n_traks} gap={gap}");
-    if want_mdat_off >= cur + 8 {
+    // a third of the files have the media directly after ftyp (the common camera/phone layout): the media then moves
+    // FORWARD by the size of the moov, and entries near the top of their field overflow
+    let forward = rng.chance(1, 3);
+    let mut desc = format!("traks={n_traks} gap={}", if forward { "fwd".to_string() } else { gap.to_string() });
+    if forward {
+        desc.push_str(" fwd");
+    } else if want_mdat_off >= cur + 8 {
         // fill with 1..3 skippable boxes totalling want_mdat_off - cur
         let mut room = want_mdat_off - cur;
         let parts = 1 + rng.below(3);
